@@ -8,6 +8,12 @@ from ..refs import coapwire as cw
 SERVER = "10.0.0.2:5683"
 
 
+def go(sim, ms):
+    """run the world for ms of virtual time from now (Sim.run's horizon is counted from the
+    start of the simulation, so a second call with the same horizon would not move)"""
+    sim.run(until=sim.elapsed() + ms, quiesce=False)
+
+
 def base(sim):
     sim.add_node(0, block_mode=3)
     sim.add_node(1, block_mode=3)
@@ -19,9 +25,9 @@ def base(sim):
 def s_exchange(sim):
     base(sim)
     sim.cmd("send 0 0 type=0 code=1 token=a1 opts=11=72")
-    sim.run(horizon=200000)
+    go(sim, 120000)
     sim.cmd("send 0 0 type=1 code=2 token=a2 opts=11=72,12= payload=7878")
-    sim.run(horizon=200000)
+    go(sim, 120000)
 
 
 def s_block1(sim):
@@ -30,7 +36,7 @@ def s_block1(sim):
     sim.cmd("ctx 1 srv_mtu=128")
     sim.cmd("sess 0 1 udp %s mtu=128" % SERVER)
     sim.cmd("send 0 1 type=0 code=3 token=b1 opts=11=%s,12=2a large=150:7" % b"up".hex())
-    sim.run(horizon=300000)
+    go(sim, 120000)
 
 
 def s_block2(sim):
@@ -39,25 +45,25 @@ def s_block2(sim):
     sim.cmd("res 1 %s body=gen:150:9 large=1" % b"big".hex())
     sim.cmd("sess 0 1 udp %s mtu=128" % SERVER)
     sim.cmd("send 0 1 type=0 code=1 token=b2 opts=11=%s" % b"big".hex())
-    sim.run(horizon=300000)
+    go(sim, 120000)
 
 
 def s_observe(sim):
     base(sim)
     sim.cmd("res 1 %s body=counter obs=1" % b"o".hex())
     sim.cmd("send 0 0 type=0 code=1 token=c1 opts=6=,11=6f")
-    sim.run(horizon=100000)
+    go(sim, 100000)
     for _ in range(3):
         sim.cmd("notify 1 o")
         sim.run(until=sim.elapsed() + 3000, quiesce=False)
     sim.cmd("cancelobs 0 0 c1 0")
-    sim.run(horizon=200000)
+    go(sim, 120000)
 
 
 def s_uri(sim):
     base(sim)
     sim.cmd("urihelpers 0 0 %s" % b"coap://example.org:1234/a/%2e%2e/b/c?x=1&y=%41".hex())
-    sim.run(horizon=200000)
+    go(sim, 120000)
 
 
 def s_setup_teardown(sim):
@@ -84,11 +90,11 @@ def s_tcp(sim):
     sim.cmd("res 1 %s body=fixed:%s" % (b"r".hex(), b"hello".hex()))
     sim.cmd("sess 0 0 tcp %s" % SERVER)
     sim.cmd("send 0 0 type=0 code=1 token=a1 opts=11=72")
-    sim.run(horizon=200000)
+    go(sim, 120000)
     sim.cmd("send 0 0 type=0 code=2 token=a2 opts=11=72,12= payload=7878")
-    sim.run(horizon=200000)
+    go(sim, 120000)
     sim.cmd("release 0 0")
-    sim.run(horizon=200000)
+    go(sim, 120000)
 
 
 def s_ws(sim):
@@ -100,9 +106,9 @@ def s_ws(sim):
     sim.cmd("res 1 %s body=fixed:%s" % (b"r".hex(), b"hello".hex()))
     sim.cmd("sess 0 0 ws 10.0.0.2:80")
     sim.cmd("send 0 0 type=0 code=1 token=a1 opts=11=72")
-    sim.run(horizon=200000)
+    go(sim, 120000)
     sim.cmd("release 0 0")
-    sim.run(horizon=200000)
+    go(sim, 120000)
 
 
 def s_dtls(sim):
@@ -114,9 +120,9 @@ def s_dtls(sim):
     sim.cmd("res 1 %s body=fixed:%s" % (b"r".hex(), b"hello".hex()))
     sim.cmd("sess 0 0 dtls 10.0.0.2:5684 psk_id=%s psk_key=%s" % (b"me".hex(), b"secretkey".hex()))
     sim.cmd("send 0 0 type=0 code=1 token=a1 opts=11=72")
-    sim.run(horizon=30000)
+    go(sim, 30000)
     sim.cmd("release 0 0")
-    sim.run(horizon=30000)
+    go(sim, 30000)
 
 
 OSC_CONF = ('master_secret,hex,"0102030405060708090a0b0c0d0e0f10"\nmaster_salt,hex,"9e7ca92223786340"\n'
@@ -133,20 +139,20 @@ def s_oscore(sim):
     sim.cmd("res 1 %s body=counter obs=1" % b"o".hex())
     sim.cmd("sess 0 0 udp %s oscore=%s" % (SERVER, (OSC_CONF % ("", "01")).encode().hex()))
     sim.cmd("send 0 0 type=0 code=1 token=a1 opts=11=72")
-    sim.run(horizon=100000)
+    go(sim, 100000)
     sim.cmd("send 0 0 type=0 code=1 token=a2 opts=6=,11=6f")
-    sim.run(horizon=100000)
+    go(sim, 100000)
     sim.cmd("notify 1 o")
     sim.run(until=sim.elapsed() + 3000, quiesce=False)
     sim.cmd("cancelobs 0 0 a2 0")
-    sim.run(horizon=100000)
+    go(sim, 100000)
 
 
 def s_async(sim):
     base(sim)
     sim.cmd("res 1 %s body=fixed:%s sep=300" % (b"s".hex(), b"later".hex()))
     sim.cmd("send 0 0 type=0 code=1 token=a1 opts=11=73")
-    sim.run(horizon=200000)
+    go(sim, 120000)
 
 
 def s_persist(sim):
@@ -161,14 +167,14 @@ def s_persist(sim):
     sim.cmd("persist 1 %s freq=2" % d)
     sim.cmd("sess 0 0 udp %s" % SERVER)
     sim.cmd("send 0 0 type=0 code=3 token=a1 opts=11=%s" % b"dyn".hex())
-    sim.run(horizon=100000)
+    go(sim, 100000)
     sim.cmd("send 0 0 type=0 code=1 token=a2 opts=6=,11=%s" % b"dyn".hex())
-    sim.run(horizon=100000)
+    go(sim, 100000)
     for _ in range(3):
         sim.cmd("notify 1 dyn")
         sim.run(until=sim.elapsed() + 3000, quiesce=False)
     sim.cmd("send 0 0 type=0 code=4 token=a3 opts=11=%s" % b"dyn".hex())
-    sim.run(horizon=100000)
+    go(sim, 100000)
 
 
 SCENARIOS = {"exchange": s_exchange, "tcp": s_tcp, "ws": s_ws, "dtls": s_dtls, "oscore": s_oscore,
